@@ -252,18 +252,45 @@ pub fn run_check(check: &dyn Check, tier: Tier) -> i32 {
         }
     };
 
+    // watchdog: a scenario that blocks in a real system call (a pty, a file) would hang the
+    // whole check; no scenario takes anywhere near this long
+    let finished = AtomicBool::new(false);
+    let progress = AtomicU64::new(0);
+    let workers_done = AtomicU64::new(0);
     std::thread::scope(|s| {
+        s.spawn(|| {
+            let mut last = (0u64, Instant::now());
+            while !finished.load(Ordering::SeqCst) {
+                std::thread::sleep(std::time::Duration::from_millis(250));
+                let p = progress.load(Ordering::SeqCst);
+                if p != last.0 {
+                    last = (p, Instant::now());
+                } else if last.1.elapsed().as_secs() > 300 {
+                    eprintln!("[{id}] HARNESS ERROR: no scenario finished for 300 s (a scenario blocks in a system call?)");
+                    std::process::exit(2);
+                }
+            }
+        });
         for _ in 0..workers {
             s.spawn(|| loop {
+                let quit = |done: &AtomicU64| {
+                    if done.fetch_add(1, Ordering::SeqCst) + 1 == workers as u64 {
+                        finished.store(true, Ordering::SeqCst);
+                    }
+                };
                 if stop.load(Ordering::SeqCst) {
+                    quit(&workers_done);
                     break;
                 }
+                progress.fetch_add(1, Ordering::SeqCst);
                 let i = next.fetch_add(1, Ordering::SeqCst);
                 if i >= total {
+                    quit(&workers_done);
                     break;
                 }
                 if Instant::now() > deadline {
                     wall_capped.store(true, Ordering::SeqCst);
+                    quit(&workers_done);
                     break;
                 }
                 let sc = if i < n_corpus {
